@@ -373,6 +373,8 @@ class Gen:
             d = self.header_name(sc, inner, cls_attrs)
             if d and d in self.funcs:
                 self.emit(ind, "@%s" % d)
+        elif method_of is not None and name != "__init__" and self.chance(0.12):
+            self.emit(ind, self.pick(["@property", "@staticmethod", "@classmethod"]))
         parts = []
         defaulting = False
         for p in params:
@@ -497,4 +499,55 @@ def gen_module(rng, features=()):
         except (SyntaxError, ValueError):
             continue
         return src
+    return None
+
+
+def gen_project(rng):
+    """{"lib.py": source, "mod_under_test.py": source}: the second module imports names of the first (plain, aliased,
+    through the module) and uses them next to homonym locals / parameters; None when no usable pair was found"""
+    import ast
+    import symtable
+    for _ in range(20):
+        lib = gen_module(rng, ())
+        body = gen_module(rng, ())
+        if not lib or not body:
+            continue
+        tree = ast.parse(lib)
+        tops = {}
+        for n in tree.body:
+            if isinstance(n, ast.FunctionDef):
+                tops.setdefault(n.name, []).append(("def", [a.arg for a in n.args.args]))
+            elif isinstance(n, ast.ClassDef):
+                tops.setdefault(n.name, []).append(("class", None))
+            elif isinstance(n, ast.Assign) and len(n.targets) == 1 and isinstance(n.targets[0], ast.Name):
+                tops.setdefault(n.targets[0].id, []).append(("var", None))
+        tops = {k: v[0] for k, v in tops.items() if len({x[0] for x in v}) == 1}
+        if not tops:
+            continue
+        bound = {s.get_name() for s in symtable.symtable(body, "m", "exec").get_symbols() if s.is_local()}
+        if "lib" in bound:
+            continue
+        head = ["import lib"]
+        used = {"lib"} | bound
+        imported = []
+        for x in rng.sample(sorted(tops), min(len(tops), rng.randint(1, 3))):
+            alias = rng.choice([None, None, "q1", "q2", rng.choice(V)])
+            sp = alias or x
+            if sp in used:
+                continue
+            used.add(sp)
+            head.append("from lib import %s%s" % (x, " as %s" % alias if alias else ""))
+            imported.append((x, sp, tops[x]))
+        foot = []
+        for (x, sp, (kind, params)) in imported:
+            if kind == "def":
+                args = ", ".join("%s=%d" % (p, rng.randint(0, 9)) for p in (params or [])[:2])
+                foot.append("print(%s(%s), lib.%s)" % (sp, args, x))
+            else:
+                foot.append("print(%s, lib.%s)" % (sp, x))
+            foot.append("def sh_%s(%s):\n    return %s" % (sp, sp, sp))
+        x = rng.choice(sorted(tops))
+        foot.append("print(lib.%s)" % x)
+        foot.append("def use_lib(lib):\n    return lib.%s" % x)
+        return {"lib.py": lib, "mod_under_test.py": "\n".join(head) + "\n" + body + "\n".join(foot) + "\n"}
     return None
